@@ -254,8 +254,19 @@ def compare_cooker(pck, r, maxmins=None):
 
 
 def _ensure(fn, cond):
-    import icontract
-    return icontract.ensure(cond, error=PostBroken)(fn)
+    """post-condition that can never disturb the monitored code: an error inside the oracle itself
+    (e.g. the function's signature changed in a refactor) is counted and the contract holds"""
+    import icontract, functools, inspect
+
+    @functools.wraps(cond)
+    def safe(*a, **k):
+        try:
+            return cond(*a, **k)
+        except Exception:
+            _cnt("oracle_error:" + cond.__name__)
+            return True
+    safe.__signature__ = inspect.signature(cond)
+    return icontract.ensure(safe, error=PostBroken)(fn)
 
 
 def install(which=("headers", "readers", "expand", "box_array", "init")):
